@@ -91,6 +91,21 @@ impl Transaction {
 
     /// Commit a transaction in the storage layer.
     pub fn commit_transaction(&self) -> Result<Vec<DbRecord>, StorageError> {
+        let records = self.drain_transaction()?;
+        self.end_transaction();
+        Ok(records)
+    }
+
+    /// Release the transaction flag after a call to [Transaction::drain_transaction].
+    pub fn end_transaction(&self) {
+        self.active.store(false, Ordering::Relaxed);
+    }
+
+    /// Retrieve the records of the transaction (sorted by commit priority) and empty the
+    /// transaction log, but leave the transaction flag set: no other transaction can begin
+    /// until [Transaction::end_transaction] is called, i.e. while the caller is still writing
+    /// the records to the storage layer.
+    pub fn drain_transaction(&self) -> Result<Vec<DbRecord>, StorageError> {
         if !self.active.load(Ordering::Relaxed) {
             return Err(StorageError::Transaction(
                 "Transaction not currently active".to_string(),
@@ -110,7 +125,6 @@ impl Transaction {
         // flush the trans log
         self.mods.clear();
 
-        self.active.store(false, Ordering::Relaxed);
         Ok(records)
     }
 
